@@ -298,6 +298,15 @@ class CSSImportRule(cssrule.CSSRule):
 
             # all possible exceptions are ignored
             try:
+                # a sheet importing itself, directly or through other sheets,
+                # would be loaded and parsed again without end
+                sheet = self.parentStyleSheet
+                while sheet is not None:
+                    if sheet.href == fullhref:
+                        raise OSError('Cyclic @import of %s.' % fullhref)
+                    owner = sheet.ownerRule
+                    sheet = owner.parentStyleSheet if owner is not None else None
+
                 usedEncoding, enctype, cssText = self.parentStyleSheet._resolveImport(
                     fullhref
                 )
